@@ -673,11 +673,17 @@ def parse_mir(text):
     cur_fn_allocs = None
     while i < n:
         ln = lines[i]
-        m = re.match(r"^fn ([A-Za-z_0-9:<>{}# ]+?)\((.*)\) -> (.*) \{$", ln, re.S)
-        if m and not ln.startswith(" "):
-            fn = Function(m.group(1).strip())
+        m = None
+        if ln.startswith("fn ") and ln.endswith("{"):
+            hn = _header_name(ln[3:])
+            if hn is not None:
+                rpos = ln.rfind(") -> ")
+                if rpos > 0:
+                    m = (hn[0], hn[1], ln[rpos + 5:-1].strip())
+        if m:
+            fn = Function(m[0].strip())
             # args
-            sc = Scanner(m.group(2))
+            sc = Scanner(m[1])
             while True:
                 sc.ws()
                 if sc.eof():
@@ -690,7 +696,7 @@ def parse_mir(text):
                 fn.args.append((int(mm.group(1)), ty))
                 fn.locals[int(mm.group(1))] = ty
                 sc.eat(",")
-            fn.ret = m.group(3).strip()
+            fn.ret = m[2]
             start = i
             i += 1
             cur = None
@@ -707,7 +713,7 @@ def parse_mir(text):
                 elif cur is not None:
                     if s == "}":
                         cur = None
-                    elif s == "":
+                    elif s == "" or s.startswith("//"):
                         pass
                     elif is_terminator_line(s):
                         cur.term = parse_terminator(s)
@@ -781,3 +787,108 @@ if __name__ == "__main__":
         nst = sum(len(b.stmts) for b in f.blocks.values())
         print(name, "args", f.args, "ret", f.ret, "blocks", len(f.blocks), "stmts", nst)
     print("allocs", {k: v["size"] for k, v in al.items()})
+
+
+class MirIndex:
+    """Lazy index over a (large) MIR dump: functions are located by header and parsed on demand."""
+
+    HDR = re.compile(r"^fn (.*)$", re.M)
+
+    def __init__(self, text, tag):
+        self.text = text
+        self.tag = tag
+        self.by_last = {}
+        self.cache = {}
+        self.promoted = {}
+        for m in re.finditer(r"^const (.*)::promoted\[(\d+)\]: (.*) = \{$", text, re.M):
+            owner = m.group(1)
+            last = strip_angle(owner).split("::")[-1]
+            self.promoted.setdefault((last, int(m.group(2))), []).append((owner, m.start()))
+        self.named_consts = {}
+        for m in re.finditer(r"^const (.*)::([A-Z][A-Z0-9_]*): (.*) = \{$", text, re.M):
+            ty = strip_angle(m.group(3)).split("::")[-1]
+            self.named_consts.setdefault((ty, m.group(2)), []).append(m.start())
+        for m in self.HDR.finditer(text):
+            hdr = m.group(1)
+            p = _header_name(hdr)
+            if p is None:
+                continue
+            name, args = p
+            last = name.split("::")[-1]
+            lst = self.by_last.setdefault(last, [])
+            # const fns are printed twice (optimized body, then "MIR FOR CTFE"): keep the first
+            if any(x[0] == name and x[1] == args for x in lst):
+                continue
+            lst.append((name, args, m.start()))
+
+    def candidates(self, last):
+        return self.by_last.get(last, [])
+
+    def get_named_const(self, owner, name):
+        c = self.named_consts.get((owner, name), [])
+        if len(c) != 1:
+            return None
+        return self.get(c[0])
+
+    def get_promoted(self, fn_last, idx, owner_hint=None):
+        c = self.promoted.get((fn_last, idx), [])
+        if len(c) > 1 and owner_hint:
+            c2 = [x for x in c if owner_hint in x[0]]
+            if len(c2) == 1:
+                c = c2
+        if len(c) != 1:
+            return None
+        return self.get(c[0][1])
+
+    def get(self, start):
+        if start in self.cache:
+            return self.cache[start]
+        end = self.text.find("\n}\n", start)
+        seg = self.text[start:end + 3]
+        if seg.startswith("const "):
+            hdr, rest = seg.split("\n", 1)
+            mm = re.match(r"^const (.*): (.*?) = \{$", hdr)
+            seg = "fn %s() -> %s {\n%s" % (mm.group(1), mm.group(2), rest)
+        fs, _ = parse_mir(seg)
+        fn = list(fs.values())[0] if fs else None
+        self.cache[start] = fn
+        return fn
+
+
+def strip_angle(path):
+    out = []
+    depth = 0
+    for i, c in enumerate(path):
+        if c == "<":
+            depth += 1
+        elif c == ">" and not (i and path[i - 1] in "-="):
+            depth -= 1
+        elif depth == 0:
+            out.append(c)
+    s = "".join(out)
+    while "::::" in s:
+        s = s.replace("::::", "::")
+    return s.strip(":")
+
+
+def _header_name(hdr):
+    """'a::<impl at f.rs:1:1: 2:2>::m(_1: T, _2: U) -> R {' -> ('a::<impl..>::m', 'args text')"""
+    # find the '(' that opens the argument list: first '(' at angle depth 0
+    depth = 0
+    i = 0
+    n = len(hdr)
+    while i < n:
+        c = hdr[i]
+        if c == "<":
+            depth += 1
+        elif c == ">" and not (i and hdr[i - 1] in "-="):
+            depth -= 1
+        elif c == "(" and depth == 0:
+            break
+        i += 1
+    if i >= n:
+        return None
+    name = hdr[:i].strip()
+    j = hdr.rfind(") -> ")
+    args = hdr[i + 1:j] if j > i else ""
+    return name, args
